@@ -258,6 +258,26 @@ theorem clearWhiteout_pres (layers : List VPath) (hl : Layers I layers) (p : Str
   · exact pres_removeFile wo (hwo.all hl)
   · exact Preserves.pure _
 
+/-- `clear_whiteout` of `create_dir` (fix of O11): the same two calls as `clearWhiteout`, only the
+outcome of the removal is inspected -/
+theorem clearWhiteoutT_pres (layers : List VPath) (hl : Layers I layers) (p : Str) :
+    Preserves I (clearWhiteoutT layers p) := by
+  unfold clearWhiteoutT
+  apply Preserves.bindQ _ (Preserves.ret _) (whiteoutPath_inUpper layers p)
+  intro wo hwo
+  apply Preserves.bind (pres_exists wo (hwo.all hl).obs)
+  intro b; split
+  · refine ⟨fun w hw => ?_⟩
+    have h1 := (pres_removeFile wo (hwo.all hl)).pres w hw
+    cases hres : wo.removeFile w with
+    | mk r w' =>
+      rw [hres] at h1
+      cases r with
+      | ok u => exact h1
+      | err k pth => cases k <;> exact h1
+      | panic => exact h1
+  · exact Preserves.pure _
+
 theorem addWhiteout_pres (layers : List VPath) (hl : Layers I layers) (p : Str) :
     Preserves I (addWhiteout layers p) := by
   unfold addWhiteout
@@ -283,8 +303,26 @@ theorem createDir_pres (layers : List VPath) (hl : Layers I layers) (p : Str) :
     intro md; exact Preserves.failK _
   · apply Preserves.bindQ _ (Preserves.ret _) (writePath_inUpper layers p)
     intro wp hwp
-    apply Preserves.bind (pres_createDir wp (hwp.all hl))
-    intro _; exact clearWhiteout_pres layers hl p
+    -- whatever the write layer answers, at most the tolerant clearing of the whiteout follows
+    refine ⟨fun w hw => ?_⟩
+    have h1 := (pres_createDir wp (hwp.all hl)).pres w hw
+    cases hres : wp.createDir w with
+    | mk r w' =>
+      rw [hres] at h1
+      have h2 := (clearWhiteoutT_pres layers hl p).pres w' h1
+      cases r with
+      | ok u => cases u; exact h2
+      | err k pth =>
+        cases k <;> try exact h1
+        dsimp only
+        cases hres2 : clearWhiteoutT layers p w' with
+        | mk r2 w2 =>
+          rw [hres2] at h2
+          cases r2 with
+          | ok u => cases u; exact h2
+          | err k2 pth2 => exact h2
+          | panic => exact h2
+      | panic => exact h1
 
 theorem refuseDir_pres (layers : List VPath) (hl : ObsLayers I layers) (p : Str) :
     Preserves I (refuseDir layers p) := by
